@@ -41,6 +41,25 @@ fn one(e: &Enc, source: Source, repl: bool, units: &[u32], stats: &mut Stats, vi
         }
         Source::Utf16 => encode_chunks_ample(e, source, repl, &[], &[&u16s], true),
     };
+    {
+        let mut f = Fnv::new().b(source as u8).b(repl as u8);
+        for &u in units {
+            f = f.u(u as u64);
+        }
+        match &run {
+            Ok(r) => {
+                for t in &r.toks {
+                    f = match t {
+                        ETok::Byte(b) => f.b(*b),
+                        ETok::Unmappable(c) => f.b(0xEE).u(*c as u64),
+                    };
+                }
+            }
+            Err(_) => f = f.s("panic"),
+        }
+        describe(|| format!("{} {:?} repl {} text {} -> {}", e.name, source, repl, crate::xenc::units_short(units), run.as_ref().map(|r| etoks_short(&r.toks)).unwrap_or_else(|e| e.clone())));
+        stats.dig(&format!("enc/{}", e.name), f);
+    }
     match run {
         Ok(r) => {
             if r.toks != want || !r.problems.is_empty() {
